@@ -28,7 +28,7 @@ def hierarchies(w):
     shapes = gen.dag_shapes(1) + gen.dag_shapes(2) + gen.dag_shapes(3)
     shapes4 = gen.dag_shapes(4)
     kinds = ["method", "static", "class", "pget", "pset", "pdel", "init", "method", "new"]
-    rounds = 12 if thorough else 1
+    rounds = 40 if thorough else 4
     idx = 0
     for rnd in range(rounds):
         extra = rng.sample(shapes4, 40 if thorough else 12)
@@ -47,7 +47,7 @@ def hierarchies(w):
 def function_stacks(w):
     """Plain functions with stacked decorators (no classes): the order of stacked decorators."""
     rng = w.rng
-    for rnd in range(20 if w.tier == "thorough" else 2):
+    for rnd in range(60 if w.tier == "thorough" else 6):
         if rnd % w.nshards != w.shard % max(1, min(w.nshards, 2)):
             continue
         ids = gen.Ids()
